@@ -104,6 +104,16 @@ def check_case(case) -> Result:
     try:
         with contextlib.redirect_stdout(io.StringIO()):
             res = cut(MPSBackend(seq, config=cfg).run)
+    except Exception as e:  # noqa: BLE001
+        inner = getattr(e, "exc", None)
+        if isinstance(inner, RuntimeError) and "DMRG did not converge" in str(inner) and case["max_bond"] is not None \
+                and case["max_bond"] < 2 ** (n // 2):
+            # with a bond cap that can bind, truncated two-site sweeps may enter a limit cycle (observed: 8 atoms, cap 2,
+            # energies alternating -0.51684 / -0.51631 from sweep to sweep); the solver then refuses honestly after
+            # max_sweeps and returns nothing.  Counted as a discard; without a binding cap the same error is a violation.
+            r.discard = "DMRG refused: no convergence under a bond cap that can bind"
+            return r
+        raise
     finally:
         impl_mod.MPSBackendImpl.fill_results = orig_fill
     cap = case["max_bond"]
